@@ -1,20 +1,21 @@
-\* adaptive_scan(start=0, stop=2, min_step=1/4, max_step=1, target_delta=1, threshold=4/5), <= 5 visits
-\* (harness/props/C29.py generates its configurations with write_cfg; this file documents the quick-tier one)
+\* quick-tier instance of harness/props/C29.py: adaptive_scan(0, 5/4, min_step 1/4, max_step 1, target_delta 2, threshold 4/5),
+\* no bound on the number of visits (MaxIter = AS_Bound + 1).  The check writes this file itself (write_cfg) and adds
+\* CONSTRAINT DumpHist (workers = 1) to print the histories it replays.
 CONSTANTS
   Plan = "adaptive"
   Den = 4
   StartN = 0
-  StopN = 8
+  StopN = 5
   MinStepN = 1
   MaxStepN = 4
-  TargetN = 4
+  TargetN = 8
   ThrN = 4
   ThrD = 5
   Num = 3
   SfN = 2
   SfD = 1
-  Readings = {0, 1, 2, 5}
-  MaxIter = 5
+  Readings = {0, 1, 5}
+  MaxIter = 56
   Fuzz = TRUE
   Flips = {FALSE, TRUE}
   Backsteps = {FALSE, TRUE}
